@@ -234,6 +234,9 @@ class AnsiString:
         if isinstance(s, AnsiStr):
             # Its length and characters are those of its text; the raw str value also holds its escape sequences
             s = s.base_str
+        elif isinstance(s, str) and type(s) is not str:
+            # Keep a plain str as the text (another str subclass may answer str() and format() with something else)
+            s = str.__str__(s)
         if len(s) > len(self._s):
             if len(self._s) in self._fmts:
                 self._fmts[len(s)] = self._fmts.pop(len(self._s))
